@@ -16,6 +16,7 @@ import (
 	"reflect"
 	"regexp"
 	"runtime/debug"
+	"strconv"
 	"strings"
 	"sync/atomic"
 	"testing"
@@ -389,6 +390,7 @@ func runPackage(u *vk.Unit, p *reg.Package, meta Meta, pkg string) {
 					continue
 				}
 				f := explainFromDoc(exchange(u, p, m, cm, b.args, b.resp, class, &st, pkg), meta.Doc, m.Name)
+				f = explainClientRefusal(u, f, meta.Doc, m.Name, b.args)
 				if f != nil {
 					if f.Classifier == "harness" {
 						u.T.Errorf("HARNESS: %s", f.What)
@@ -575,6 +577,11 @@ func exchange(u *vk.Unit, p *reg.Package, m reg.Method, cm reflect.Value, args [
 				cl = "null-for-nullable-object"
 			case emptyPiece:
 				cl = "empty-piece-in-parameter-or-header"
+			case callErr != nil && st.status == 0 && st.handlerCalls == 0:
+				// refused on the client before anything was sent: whether that is the documented refusal of a
+				// value containing the style's delimiter is decided from the document and the value
+				// (explainClientRefusal), not from the wording of the error
+				cl = "core-value-refused-by-client"
 			}
 			return vk.F(cl, "%s: core values that pass their own validation were not delivered: status %d, client error: %v, server error: %s", desc(), st.status, callErr, st.serverErr)
 		}
@@ -943,4 +950,94 @@ func explainFromDoc(f *vk.Finding, doc specgen.Doc, opName string) *vk.Finding {
 		return vk.F("response-wrapper-type-shared-through-body-component", "%s", f.What)
 	}
 	return f
+}
+
+// styleDelimiters: the characters a path style uses to separate pieces.
+func styleDelimiters(style string) string {
+	switch style {
+	case "label":
+		return ".,="
+	case "matrix":
+		return ";,="
+	default: // simple
+		return ",="
+	}
+}
+
+// explainClientRefusal decides a client-side refusal of core values: it is the allowed error outcome
+// when a path parameter's value has a piece whose text contains a delimiter of the parameter's style
+// (a float with a fraction, an IP address or a time with fractional seconds under style label), i.e.
+// the value is outside the core domain "text without the style's delimiter". Otherwise the finding
+// gets its generic name back.
+func explainClientRefusal(u *vk.Unit, f *vk.Finding, doc specgen.Doc, opName string, args []reflect.Value) *vk.Finding {
+	if f == nil || f.Classifier != "core-value-refused-by-client" {
+		return f
+	}
+	generic := vk.F("core-value-not-delivered", "%s", f.What)
+	var op *specgen.Operation
+	for i := range doc.Ops {
+		if alnumLower(doc.Ops[i].ID) == alnumLower(opName) {
+			op = &doc.Ops[i]
+		}
+	}
+	if op == nil {
+		return generic
+	}
+	for _, prm := range op.Params {
+		if prm.In != "path" {
+			continue
+		}
+		delims := styleDelimiters(prm.Style)
+		for _, a := range args {
+			v := a
+			for v.Kind() == reflect.Pointer && !v.IsNil() {
+				v = v.Elem()
+			}
+			if v.Kind() != reflect.Struct {
+				continue
+			}
+			for i := 0; i < v.NumField(); i++ {
+				if !v.Type().Field(i).IsExported() || alnumLower(v.Type().Field(i).Name) != alnumLower(prm.Name) {
+					continue
+				}
+				raw, err := json.Marshal(v.Field(i).Interface())
+				if err != nil {
+					continue
+				}
+				var val any
+				if json.Unmarshal(raw, &val) != nil {
+					continue
+				}
+				if leafContainsAny(val, delims) {
+					u.Label("core:refused-value-contains-delimiter")
+					return nil
+				}
+			}
+		}
+	}
+	return generic
+}
+
+// leafContainsAny: some scalar of the JSON value, written as text, contains one of the characters
+// (member names of objects count too: they are pieces of the serialisation).
+func leafContainsAny(v any, chars string) bool {
+	switch x := v.(type) {
+	case map[string]any:
+		for k, e := range x {
+			if strings.ContainsAny(k, chars) || leafContainsAny(e, chars) {
+				return true
+			}
+		}
+	case []any:
+		for _, e := range x {
+			if leafContainsAny(e, chars) {
+				return true
+			}
+		}
+	case string:
+		return strings.ContainsAny(x, chars)
+	case float64:
+		return strings.ContainsAny(strconv.FormatFloat(x, 'f', -1, 64), chars)
+	}
+	return false
 }
